@@ -690,7 +690,7 @@ func runC07(p *core.Prog, r *core.Report, tier string) {
 	// ---- (l) the score is monotone in the value: arbitrary-precision amounts are not truncated to 64 bits ----
 	nBig, nTrunc := 0, 0
 	for _, f := range fns {
-		if !strings.HasSuffix(core.RelPkg(f.Pkg.Pkg.Path()), "/best") {
+		if rp := core.RelPkg(f.Pkg.Pkg.Path()); !strings.HasSuffix(rp, "/best") && !strings.HasSuffix(rp, "/deadline") {
 			continue
 		}
 		core.EachInstr(f, func(in ssa.Instruction) {
